@@ -133,3 +133,71 @@ class Normalize(Contract):
 def registry(prior='none', eq=True):
     cs = [RowNormalize(), ApplyPrior(prior), Transpose(prior, eq), Normalize(prior)]
     return {c.key: c for c in cs}
+
+
+class PrinzEstimator(Contract):
+    """call-site contract of the reversible estimator used by `mle`: its two results are (uninterpreted) functions of the
+    count matrix it is given - what the sweep computes is C12's contract (contracts/prinz.py), not repeated here"""
+    key = F + '_prinz_mle_py'
+
+    def requires(self, L, A, G):
+        return [('square', L.shape(A['C'], 0) == L.shape(A['C'], 1))]
+
+    def result(self, e, st, args):
+        from pyvc.engine import Tup
+        C = e.deref(st, args['C'])
+        return Tup([e.fresh_arr(st, 'T_mle', 'real', C.shape), e.fresh_arr(st, 'pi_mle', 'real', (C.shape[0],))])
+
+    @staticmethod
+    def fns(M):
+        import z3
+        PT = z3.Function('PRINZ_T', M.term.sort(), z3.IntSort(), z3.IntSort(), z3.IntSort(), z3.RealSort())
+        PP = z3.Function('PRINZ_PI', M.term.sort(), z3.IntSort(), z3.IntSort(), z3.RealSort())
+        return PT, PP
+
+    def ensures(self, L, A, N, R, G, V):
+        C = A['C']
+        n = L.shape(C, 0)
+        T, pi = R
+        PT, PP = self.fns(C)
+        return [('shape', L.And(L.shape(T, 0) == n, L.shape(T, 1) == n, L.len(pi) == n)),
+                ('estimate-of-these-counts', L.forall2((0, n), (0, n), lambda i, j: T[i, j] == PT(C.term, n, i, j))),
+                ('populations-of-these-counts', L.forall(0, n, lambda i: pi[i] == PP(C.term, n, i)))]
+
+
+class Mle(Contract):
+    """dense branch of builders.mle: the estimator is run on counts + prior (once, before estimation); the counts returned are
+    counts + prior; matrix and populations returned are the estimator's two results for exactly that matrix, whether or not
+    populations were asked for (they are computed together)."""
+    key = F + 'mle'
+
+    def __init__(self, prior='none', eq=True):
+        self.prior, self.eq = prior, eq
+
+    def params(self, e, st):
+        import z3
+        from pyvc.engine import NONE
+        return {'C': sym_counts(e, st), 'prior_counts': NONE if self.prior == 'none' else z3.Real('prior'), 'calculate_eq_probs': self.eq}
+
+    def requires(self, L, A, G):
+        return [('square', L.shape(A['C'], 0) == L.shape(A['C'], 1))]
+
+    def ensures(self, L, A, N, R, G, V):
+        C, p = A['C'], A['prior_counts']
+        n = L.shape(C, 0)
+        p = 0 if L.is_none(p) else p
+        Cout, T, pi = R
+        PT, PP = PrinzEstimator.fns(Cout)
+        out = [('shape', L.And(L.shape(Cout, 0) == n, L.shape(Cout, 1) == n, L.shape(T, 0) == n, L.shape(T, 1) == n)),
+               ('counts-returned-are-counts-plus-prior', L.forall2((0, n), (0, n), lambda i, j: Cout[i, j] == C[i, j] + p)),
+               ('probabilities-are-the-estimate-of-the-returned-counts', L.forall2((0, n), (0, n), lambda i, j: T[i, j] == PT(Cout.term, n, i, j)))]
+        if self.eq:
+            out.append(('populations-are-the-estimate-of-the-returned-counts', False if pi is None else L.And(L.len(pi) == n, L.forall(0, n, lambda i: pi[i] == PP(Cout.term, n, i)))))
+        else:
+            out.append(('no-populations-when-not-asked', pi is None))
+        return out
+
+
+def registry_mle(prior='none', eq=True):
+    cs = [ApplyPrior(prior), PrinzEstimator(), Mle(prior, eq)]
+    return {c.key: c for c in cs}
